@@ -369,8 +369,45 @@ func (m *cacheModel) checkDoSync() {
 			itemLoop = l
 		}
 	}
+	sweepFn := fn
+	if itemLoop != nil && sweepLoop == nil {
+		// the sweep may live in a private helper called after the list loop: doSync returns helper(set, events)
+		for _, b := range fn.Blocks {
+			for _, in := range b.Instrs {
+				call, ok := in.(*ssa.Call)
+				if !ok || itemLoop.Body[b] {
+					continue
+				}
+				g := call.Call.StaticCallee()
+				if g == nil || g.Pkg != fn.Pkg || g.Blocks == nil || !c.P.ownedBy(g, "", "_cache.run") {
+					continue
+				}
+				for _, l := range findLoops(g) {
+					for bb := range l.Body {
+						for _, ii := range bb.Instrs {
+							if r, ok := ii.(*ssa.Next); ok {
+								if rg, ok := r.Iter.(*ssa.Range); ok {
+									if _, ok := rg.X.Type().Underlying().(*types.Map); ok && len(findLoops(g)) == 1 {
+										sweepLoop, sweepFn = l, g
+									}
+								}
+							}
+						}
+					}
+				}
+			}
+		}
+	}
 	if itemLoop == nil || sweepLoop == nil {
 		c.undecided("T-TABLE(doSync.item)", "doSync/shape", pos, "doSync is not `for list {…}; for items {…}`")
+		return
+	}
+	if sweepFn != fn {
+		c.useFn(sweepFn)
+		m.checkSyncItem(fn, itemLoop)
+		m.checkSyncSweep(sweepFn, sweepLoop)
+		m.checkSyncReturn(fn)
+		m.checkSyncReturn(sweepFn)
 		return
 	}
 	if itemLoop.Header.Index > sweepLoop.Header.Index || itemLoop.Body[sweepLoop.Header] || sweepLoop.Body[itemLoop.Header] {
@@ -383,7 +420,20 @@ func (m *cacheModel) checkDoSync() {
 }
 
 // workingSet recognises the local map used as the set of surviving keys.
-func isLocalMap(t *Term) bool { return t != nil && t.K == "makemap" }
+func isLocalMap(t *Term) bool {
+	if t == nil {
+		return false
+	}
+	if t.K == "makemap" {
+		return true
+	}
+	// the working set handed to a private helper
+	if p, ok := t.V.(*ssa.Parameter); ok && t.K == "param" {
+		_, isMap := p.Type().Underlying().(*types.Map)
+		return isMap
+	}
+	return false
+}
 
 func (m *cacheModel) checkSyncItem(fn *ssa.Function, loop *Loop) {
 	c := m.c
@@ -706,10 +756,39 @@ func (m *cacheModel) checkSyncReturn(fn *ssa.Function) {
 			return x.Value == nil
 		case *ssa.MakeSlice, *ssa.Slice:
 			return true
+		case *ssa.Parameter:
+			// the event list handed to a private helper (its caller is checked the same way)
+			_, isSlice := x.Type().Underlying().(*types.Slice)
+			return isSlice && fn.Name() != "doSync"
 		}
 		return false
 	}
+	// doSync may return the result of a private helper that continues the same event list
 	for _, r := range rets {
+		if len(r.Results) == 1 {
+			if call, ok := r.Results[0].(*ssa.Call); ok && !appends[call] {
+				if g := call.Call.StaticCallee(); g != nil && g.Pkg == fn.Pkg && c.P.ownedBy(g, "", "_cache.run") {
+					okArg := false
+					for _, a := range call.Call.Args {
+						if _, isSlice := a.Type().Underlying().(*types.Slice); isSlice && visit(a) {
+							okArg = true
+						}
+					}
+					if okArg {
+						reach[call] = true
+						appends[call] = false
+						// treat as visited
+						defer func() {}()
+						continue
+					}
+				}
+			}
+		}
+	}
+	for _, r := range rets {
+		if len(r.Results) == 1 && reach[r.Results[0]] {
+			continue
+		}
 		if len(r.Results) != 1 || !visit(r.Results[0]) {
 			ok = false
 		}
@@ -719,7 +798,7 @@ func (m *cacheModel) checkSyncReturn(fn *ssa.Function) {
 			ok = false
 		}
 	}
-	c.check(ok, rule, "doSync/returns-all-built-events", pos,
+	c.check(ok, rule, fn.Name()+"/returns-all-built-events", pos,
 		fmt.Sprintf("return value is the closure of the %d appends", len(appends)),
 		"doSync does not return exactly the list of events it built (an append is lost, or something else is returned)")
 }
